@@ -1,11 +1,11 @@
 from common import T_COMMON
 
 CFG = dict(
-    modules=["PolyVerif.Props.C06", "PolyVerif.Props.C06Scene", "PolyVerif.Props.C06Data", "PolyVerif.Props.C06Tables", "PolyVerif.Props.C06Carry", "PolyVerif.Props.C06Valid", "PolyVerif.Props.C06Dedup", "PolyVerif.Props.C06Full"],
+    modules=["PolyVerif.Props.C06", "PolyVerif.Props.C06Scene", "PolyVerif.Props.C06Data", "PolyVerif.Props.C06Tables", "PolyVerif.Props.C06Carry", "PolyVerif.Props.C06Valid", "PolyVerif.Props.C06Dedup", "PolyVerif.Props.C06Full", "PolyVerif.Props.C06Equal"],
     # property theorems (audited); scene_* quantify over EVERY well-formed scene, gltf_* over every admissible write sequence
     theorems=["scene_inv", "scene_valid_low", "gltf_refs_in_range", "scene_refs_ok", "gltf_node_trs",
               "scene_dinv", "gltf_prims_consistent", "scene_prims_ok", "gltf_carries_scene", "gltf_extensions_declared", "scene_nodes_ok", "gltf_scene_valid",
-              "gltf_dedup_consistent", "addMaterial_dedup", "addMesh_dedup", "gltf_scene_full_partial", "exScene_wf",
+              "gltf_dedup_consistent", "addMaterial_dedup", "addMesh_dedup", "gltf_scene_full_partial", "exScene_wf", "gltf_equal_equivalence",
               "gltf_bytesWritten_eq_len", "gltf_views_tile", "gltf_accessor_fits", "gltf_minmax",
               "gltf_decode_image", "gltf_decode_indices", "gltf_index_width",
               "glb_frame_length", "glb_frame", "glb_frame_bin",
